@@ -133,6 +133,7 @@ func (e *Exec) intBinop(op token.Token, a, b *sym.Term, xt, yt types.Type) Value
 	case token.AND_NOT:
 		return sym.BAnd(a, sym.BNot(b))
 	case token.SHL, token.SHR:
+		b = e.uniq(b)
 		_, ysigned, _ := intInfo(yt)
 		if ysigned {
 			if !e.branch(sym.SGE(b, sym.BV(0, b.W))) {
